@@ -576,6 +576,10 @@ class Engine:
             st.assume(m.contains(ki))
             return [(st, ZV(m.get(ki), 'hv'))]
         if isinstance(recv, (Lst, Tup)) and isinstance(k, C) and isinstance(k.v, int):
+            if not -len(recv.items) <= k.v < len(recv.items):
+                # Python raises IndexError here: a failing (definite) obligation, the path itself is not followed further
+                self.oblige(st, f"safe/index-in-range@L{node.lineno}", z3.BoolVal(False), line=node.lineno, definite=True)
+                raise OutOfSubset(f"index {k.v} out of range of a sequence of {len(recv.items)}", node)
             return [(st, recv.items[k.v])]
         if isinstance(recv, Obj) and recv.kind in ('pymap', 'combo'):
             return [(st, self.contract.pymap_lookup(self, st, recv, k))]
